@@ -89,3 +89,30 @@ class quiet:
     def __exit__(self, *a):
         sys.stdout.close()
         sys.stdout = self._o
+
+
+class adversarial_pool:
+    """While active, multiprocessing.Pool(...) returns a pool that honours every API contract but uses the freedom the contracts
+    leave to the scheduler against the caller: results of the *unordered* APIs (imap_unordered) are delivered in reverse submission
+    order, ordered APIs (map, starmap, starmap_async().get(), imap) are untouched.  Harness-side only; /repo is not instrumented."""
+    def __enter__(self):
+        import multiprocessing as mp
+        self.mp, self.orig = mp, mp.Pool
+        orig = self.orig
+
+        class Pool:
+            def __init__(self, *a, **k):
+                self._p = orig(*a, **k)
+            def __enter__(self):
+                self._p.__enter__(); return self
+            def __exit__(self, *a):
+                return self._p.__exit__(*a)
+            def imap_unordered(self, func, iterable, chunksize=1):
+                res = self._p.map(func, list(iterable), chunksize)
+                return iter(list(reversed(res)))
+            def __getattr__(self, name):
+                return getattr(self._p, name)
+        mp.Pool = Pool
+        return self
+    def __exit__(self, *a):
+        self.mp.Pool = self.orig
